@@ -13,11 +13,12 @@ structure SCall where
   input : Nat
 deriving DecidableEq, Repr, Inhabited
 
-/-- What a scripted system does: direct nested call (exclusive systems), queued call, queued write, queued despawn. -/
+/-- What a scripted system does: direct nested call (exclusive systems), queued call, queued write, queued despawn of a spawned system. -/
 inductive SOp
   | d (c : SCall)
   | q (c : SCall)
   | w (v : Nat)
+  | x (id : Nat)
 deriving DecidableEq, Repr, Inhabited
 
 inductive SEv
@@ -28,6 +29,7 @@ inductive SEv
   | spawned (id defKey : Nat)
   | despawned (id : Nat)
   | capped (k : SKind) (key : Nat)
+  | call (k : SKind) (key : Nat)
 deriving DecidableEq, Repr, Inhabited
 
 def upd {β : Type} (f : Nat → β) (a : Nat) (b : β) : Nat → β := fun x => if x = a then b else f x
@@ -68,7 +70,7 @@ def capMax : Nat := 150
 /-- A call *operation* of a script or of the top level: skipped beyond the cap, otherwise performed and reported. -/
 def tryCall (k : SSt → Task → SSt × Option Nat) (st : SSt) (c : SCall) : SSt :=
   if st.ncalls ≥ capMax then st.emit (.capped c.kind c.key)
-  else report (k { st with ncalls := st.ncalls + 1 } (.call c)) c
+  else report (k (({ st with ncalls := st.ncalls + 1 } : SSt).emit (.call c.kind c.key)) (.call c)) c
 
 /-- Runs the body of a system whose `Local` counter is `cnt`. An ordinary system collects its commands in its own buffer:
     after the body the world queue is flushed, then the buffer is applied, each command followed by a flush. An exclusive
@@ -102,6 +104,7 @@ def exec (p : SProg) : Nat → SSt → Task → SSt × Option Nat
     match op with
     | .q c => (tryCall (exec p fuel) st c, none)
     | .w v => (st.emit (.write v), none)
+    | .x id => (({ st with sstore := upd st.sstore id none } : SSt).emit (.despawned id), none)
     | .d _ => (st, none)
   | fuel + 1, st, .call c =>
     match c.kind with
